@@ -501,6 +501,9 @@ func coqValRec(g *GT, v reflect.Value) string {
 	case "named":
 		return coqValRec(g.Elem, v)
 	case "bool":
+		if raw, ok := rawBool(v); ok && raw > 1 {
+			return "VBad" // the byte behind a Go bool is 0 or 1; anything else is not a value of the type
+		}
 		return cApp("VBool", cBool(v.Bool()))
 	case "int8", "int16", "int32", "int64", "int":
 		return cApp("VInt", cZ(v.Int()))
@@ -587,6 +590,14 @@ func coqValRec(g *GT, v reflect.Value) string {
 			p = cApp("VInt", cZ(payload.Int()))
 		case "nullbool":
 			p = cApp("VBool", cBool(payload.Bool()))
+			if raw, ok := rawBool(payload); ok && raw > 1 {
+				p = "VBad"
+			}
+			if in := e.Field(0); in.Kind() == reflect.Struct && in.NumField() == 2 {
+				if raw, ok := rawBool(in.Field(1)); ok && raw > 1 {
+					p = "VBad" // the Valid flag
+				}
+			}
 		case "nullfloat":
 			p = cApp("VF64", cU(f64BitsOf(payload)))
 		case "nullstring":
@@ -808,8 +819,10 @@ func normEqRec(g *GT, a, b reflect.Value, path string) string {
 	case "named":
 		return normEqRec(g.Elem, a, b, path)
 	case "bool":
-		if a.Bool() != b.Bool() {
-			return diffAt(path, fmt.Sprintf("%v != %v", a.Bool(), b.Bool()))
+		ra, oka := rawBool(a)
+		rb, okb := rawBool(b)
+		if a.Bool() != b.Bool() || (oka && ra > 1) || (okb && rb > 1) {
+			return diffAt(path, fmt.Sprintf("%v (byte %#x) != %v (byte %#x)", a.Bool(), ra, b.Bool(), rb))
 		}
 	case "int8", "int16", "int32", "int64", "int":
 		if a.Int() != b.Int() {
@@ -991,4 +1004,12 @@ func trunc(s string) string {
 		return s[:40] + "..."
 	}
 	return s
+}
+
+// rawBool: the byte stored behind a bool that lives in addressable memory.
+func rawBool(v reflect.Value) (byte, bool) {
+	if v.Kind() != reflect.Bool || !v.CanAddr() {
+		return 0, false
+	}
+	return *(*byte)(v.Addr().UnsafePointer()), true
 }
